@@ -162,6 +162,19 @@ func buildArch(dir string, names []string, prot map[string][]byte, s, r, g int, 
 	if len(names) > 0 {
 		derived = append(derived, names[0]+".tmp", names[0]+"~", names[len(names)-1]+".bak")
 	}
+	{
+		isProt := map[string]bool{}
+		for _, n := range names {
+			isProt[n] = true
+		}
+		var keep []string
+		for _, dn := range derived {
+			if !isProt[dn] {
+				keep = append(keep, dn)
+			}
+		}
+		derived = keep
+	}
 	for _, dn := range derived {
 		sandbox.WriteFile(filepath.Join(dir, filepath.FromSlash(dn)), []byte("derived-name bystander "+dn))
 	}
@@ -523,3 +536,8 @@ func readJSONFile(path string, v interface{}) error {
 }
 
 var errBadInput = errors.New("bad input")
+
+func hasKey(m map[string][]byte, k string) bool {
+	_, ok := m[k]
+	return ok
+}
